@@ -573,16 +573,16 @@ static void build_instances(void)
 	addi(0, op_drain, "drain", A, 1, 0, 0, 0);
 	addi(0, op_drain, "drain", A, SZ_CAP, 0, 0, 0);
 	addi(0, op_drain, "drain", A, SZ_L1, 0, 0, 0);
-	addi(1, op_drain, "drain", A, 2, 0, 0, 0);
-	addi(1, op_drain, "drain", A, SZ_CAPM1, 0, 0, 0);
+	addi(2, op_drain, "drain", A, 2, 0, 0, 0);
+	addi(2, op_drain, "drain", A, SZ_CAPM1, 0, 0, 0);
 	addi(1, op_drain, "drain", A, SZ_CAPP1, 0, 0, 0);
 	addi(1, op_drain, "drain", A, SZ_HUGE, 0, 0, 0);
 	addi(0, op_prepend, "prepend", A, 1, 0, 0, 1);
 	addi(0, op_prepend, "prepend", A, SZ_CAPP1, 0, 0, 1);
 	addi(1, op_prepend, "prepend", A, 2, 0, 0, 1);
-	addi(1, op_prepend, "prepend", A, SZ_CAPM1, 0, 0, 1);
+	addi(2, op_prepend, "prepend", A, SZ_CAPM1, 0, 0, 1);
 	addi(1, op_prepend, "prepend", A, SZ_CAP, 0, 0, 1);
-	addi(1, op_prepend, "prepend", A, 2049, 0, 0, 1);
+	addi(2, op_prepend, "prepend", A, 2049, 0, 0, 1);
 	addi(2, op_prepend, "prepend", A, 4097, 0, 0, 1);
 	addi(2, op_prepend, "prepend", A, 0, 0, 0, 1);
 	addi(0, op_add_buffer, "add_buffer(A<-B)", A, B, 0, 0, 1);
@@ -597,12 +597,12 @@ static void build_instances(void)
 	addi(1, op_remove_buffer, "remove_buffer(A->B)", A, B, SZ_HUGE, 0, 1);
 	addi(0, op_remove_buffer, "remove_buffer(B->A)", B, A, 1, 0, 1);
 	addi(1, op_remove_buffer, "remove_buffer(B->A)", B, A, SZ_CAP, 0, 1);
-	addi(1, op_remove_buffer, "remove_buffer(B->A)", B, A, SZ_L1, 0, 1);
+	addi(2, op_remove_buffer, "remove_buffer(B->A)", B, A, SZ_L1, 0, 1);
 	addi(2, op_remove_buffer, "remove_buffer(A->A)", A, A, 1, 0, 1);
 	addi(2, op_remove_buffer, "remove_buffer(A->B)", A, B, 0, 0, 1);
 	addi(0, op_pullup, "pullup", A, SZ_NEG, 0, 0, 1);
 	addi(0, op_pullup, "pullup", A, SZ_CAPP1, 0, 0, 1);
-	addi(1, op_pullup, "pullup", A, 2, 0, 0, 1);
+	addi(2, op_pullup, "pullup", A, 2, 0, 0, 1);
 	addi(1, op_pullup, "pullup", A, SZ_CAP, 0, 0, 1);
 	addi(1, op_pullup, "pullup", A, 2049, 0, 0, 1);
 	addi(1, op_pullup, "pullup", A, SZ_LP1, 0, 0, 1);
@@ -613,7 +613,7 @@ static void build_instances(void)
 	addi(1, op_remove, "remove", A, 4097, 0, 0, 0);
 	addi(2, op_remove, "remove", A, 0, 0, 0, 0);
 	addi(0, op_expand, "expand", A, SZ_CAPP1, 0, 0, 1);
-	addi(1, op_expand, "expand", A, 1, 0, 0, 1);
+	addi(2, op_expand, "expand", A, 1, 0, 0, 1);
 	addi(1, op_expand, "expand", A, SZ_CAP, 0, 0, 1);
 	addi(1, op_expand, "expand", A, 4097, 0, 0, 1);
 	addi(0, op_prepend_buffer, "prepend_buffer(A<-B)", A, B, 0, 0, 1);
@@ -627,7 +627,7 @@ static void build_instances(void)
 	addi(1, op_reserve, "reserve2+commit", A, 2, 4097, CM_REQ, 1);
 	addi(1, op_reserve, "reserve1+commit-all", A, 1, 1, CM_FULL, 1);
 	addi(1, op_reserve, "reserve2+commit-all", A, 2, SZ_CAPP1, CM_FULL, 1);
-	addi(1, op_reserve, "reserve1-only", A, 1, SZ_CAPP1, CM_NONE, 1);
+	addi(2, op_reserve, "reserve1-only", A, 1, SZ_CAPP1, CM_NONE, 1);
 	addi(1, op_reserve, "reserve1+badlen", A, 1, SZ_CAPP1, CM_BADLEN, 1);
 	addi(1, op_reserve, "reserve2+badbase", A, 2, SZ_CAPP1, CM_BADBASE, 1);
 	addi(2, op_reserve, "reserve2+badlen", A, 2, SZ_CAPP1, CM_BADLEN, 1);
@@ -640,7 +640,7 @@ static void build_instances(void)
 	addi(0, op_readln, "readln-crlf", A, EVBUFFER_EOL_CRLF, 0, 0, 1);
 	addi(1, op_readln, "readln-any", A, EVBUFFER_EOL_ANY, 0, 0, 1);
 	addi(1, op_readln, "readln-strict", A, EVBUFFER_EOL_CRLF_STRICT, 0, 0, 1);
-	addi(1, op_readln, "readln-lf", A, EVBUFFER_EOL_LF, 0, 0, 1);
+	addi(2, op_readln, "readln-lf", A, EVBUFFER_EOL_LF, 0, 0, 1);
 	addi(1, op_readln, "readln-nul", A, EVBUFFER_EOL_NUL, 0, 0, 1);
 	addi(0, op_add_reference, "add_reference", A, 0, 2, 0, 1);
 	addi(1, op_add_reference, "add_reference", A, 0, SZ_CAPP1, 0, 1);
@@ -651,7 +651,7 @@ static void build_instances(void)
 	addi(2, op_add_iovec, "add_iovec", A, 2, 0, 0, 3);
 	addi(0, op_add_printf, "add_printf", A, 64, 0, 0, 3);
 	addi(1, op_add_printf, "add_printf", A, 1, 0, 0, 3);
-	addi(1, op_add_printf, "add_printf", A, SZ_CAP, 0, 0, 3);
+	addi(2, op_add_printf, "add_printf", A, SZ_CAP, 0, 0, 3);
 	addi(1, op_add_printf, "add_printf", A, 2049, 0, 0, 3);
 	addi(2, op_add_printf, "add_printf", A, 0, 0, 0, 3);
 	addi(0, op_freeze, "freeze-start", A, 1, 1, 0, 0);
@@ -661,10 +661,10 @@ static void build_instances(void)
 	addi(1, op_freeze, "freeze-startB", B, 1, 1, 0, 0);
 	addi(1, op_freeze, "freeze-endB", B, 0, 1, 0, 0);
 	addi(1, op_drain, "drainB", B, 1, 0, 0, 0);
-	addi(1, op_drain, "drainB", B, SZ_L1, 0, 0, 0);
+	addi(2, op_drain, "drainB", B, SZ_L1, 0, 0, 0);
 	addi(1, op_prepend, "prependB", B, 2, 0, 0, 1);
-	addi(1, op_pullup, "pullupB", B, SZ_NEG, 0, 0, 1);
-	addi(1, op_expand, "expandB", B, SZ_CAPP1, 0, 0, 1);
+	addi(2, op_pullup, "pullupB", B, SZ_NEG, 0, 0, 1);
+	addi(2, op_expand, "expandB", B, SZ_CAPP1, 0, 0, 1);
 	addi(1, op_add_buffer_reference, "add_buffer_reference(B<-A)", B, A, 0, 0, 4);
 	addi(1, op_add_buffer_reference, "add_buffer_reference(A<-B)", A, B, 0, 0, 4);
 	addi(2, op_add_buffer, "add_buffer(A<-A)", A, A, 0, 0, 1);
